@@ -23,6 +23,8 @@ def setup(world):
     world.symbolic_sets = True
     world.callee_contract('yaql.language.utils.limit_memory_usage')
     world.callee_contract('yaql.language.utils.memorize', result=TVal)
+    world.callee_contract('yaql.language.utils.is_iterator', result=TBool,
+                          ensures=['result == isinstance(obj, "Iterator")'])
     world.callee_contract(ST + 'string_by_int', result=TVal)
     world.callee_contract(ST + 'join', result=TVal)
     world.callee_contract(Q + 'count_', result=TVal)
@@ -102,4 +104,31 @@ def wrapper_contracts():
     # ---- system ------------------------------------------------------------
     c(SY + 'lambda_', params=dict(func=TVal), ensures=['result is func'],
       serves=('C04', 'C11'))
+    # assert: the condition is evaluated once, on the object (a one-shot
+    # iterator is memorized first so that the caller still gets all of it);
+    # the object comes back iff the condition holds
+    CM = '[e for e in calls if e[0] == "contract:utils.memorize"]'
+    c(SY + 'assert__', name='system.assert__/value',
+      params=dict(engine=TVal, obj=TVal, condition=TFunc(1), message=TStr),
+      requires=['not isinstance(obj, "Iterator")'],
+      raises={'AssertionError': 'not truthy(condition(obj))'},
+      ensures=['truthy(condition(obj))', 'result is obj',
+               'ncalls(condition) == 1', 'len(%s) == 0' % CM],
+      serves=('C11', 'C13'))
+    c(SY + 'assert__', name='system.assert__/iterator',
+      params=dict(engine=TVal, obj=TVal, condition=TFunc(1), message=TStr),
+      requires=['isinstance(obj, "Iterator")'],
+      raises={'AssertionError': 'len(%s) == 1 and not truthy(condition('
+              '%s[0][2]))' % (CM, CM)},
+      ensures=['len(%s) == 1 and %s[0][1][0] == obj and %s[0][1][1] == '
+               'engine' % (CM, CM, CM),
+               'result == %s[0][2] and truthy(condition(result))' % CM,
+               'ncalls(condition) == 1'],
+      serves=('C11', 'C13', 'C14'))
+    # obj.name on a plain object: ONLY through a registered #property#name
+    # function, never getattr
+    c(SY + 'get_property', params=dict(func=TFunc(2), obj=TVal, name=TStr),
+      ensures=['result == func("#property#" + name, obj)',
+               'len([e for e in calls if e[0] == "getattr"]) == 0'],
+      serves=('C07', 'C04'))
     return cs
